@@ -254,6 +254,17 @@ theorem getLog_after_appends (info : SegInfo) (bs : List (List Bytes)) (hwf : Ru
   simp only [List.append_assoc]
   exact readFrame_entry pre (post ++ zeros n) _ bufSize hbuf hp hoff
 
+/-- **C15/C12** `getLog_after_appends` without the size hypothesis: the writer refuses payloads above
+    `maxEntrySize`, so a successful run implies it (`appendAll_payload_le`, Proofs/Segment/Run.lean) -/
+theorem accepted_implies_readable (info : SegInfo) (bs : List (List Bytes)) (hwf : RunWF info bs)
+    (hmin : info.min = info.base)
+    (w : Writer) (file : Bytes)
+    (hrun : (freshSegment info).1.appendAll (freshSegment info).2 info.base bs = some (w, file))
+    (k : Nat) (hk : k < bs.flatten.length) (bufSize : Nat) (hbuf : 8 ≤ bufSize) :
+    w.getLog file (info.base + k) bufSize = .ok (bs.flatten[k]'hk) :=
+  getLog_after_appends info bs hwf hmin w file hrun
+    (appendAll_payload_le _ _ _ bs w file hrun) k hk bufSize hbuf
+
 /-- **C09** the independent README decoder reads back what the writer wrote -/
 theorem spec_decode_writer (info : SegInfo) (bs : List (List Bytes)) (hwf : RunWF info bs)
     (w : Writer) (file : Bytes)
